@@ -178,10 +178,16 @@ func (ps *Parser) parseMetaTags(root *html.Node) {
 		for _, importantProperty := range importantProperties {
 			prefixWithColon := ps.prefixes[importantProperty.Prefix] + ":"
 
-			// Note that `==` won't work here because importantProperties uses "image:"
-			// (ImageStructPropPfx) for all image structured properties, so as to prevent
-			// repetitive property name comparison - here and then again in ImageParser.
-			if !strings.HasPrefix(property, prefixWithColon+importantProperty.Name) {
+			// Only "image:" (ImageStructPropPfx) stands for all properties that start
+			// with it, so as to prevent repetitive property name comparison - here and
+			// then again in ImageParser. Any other property must match exactly, e.g.
+			// "og:title:alt" or "og:url_mobile" are not the title or URL of the page.
+			propertyName := prefixWithColon + importantProperty.Name
+			if importantProperty.Name == ImageStructPropPfx {
+				if !strings.HasPrefix(property, propertyName) {
+					continue
+				}
+			} else if property != propertyName {
 				continue
 			}
 
